@@ -374,6 +374,8 @@ class ExprMixin(object):
                             lambda s2, vs: self.binop(s2, e.op, vs[0], vs[1], e))
 
     def binop(self, st, op, a, b, node):
+        if isinstance(op, ast.Mod) and a.ty == STR:
+            return self.ok(st, self.percent_format(st, a, b, node))
         if a.ty == VAL or b.ty == VAL:
             # dynamic operands: split on the admissible kinds
             kinds = ['int', 'real', 'str', 'bool']
